@@ -5,6 +5,9 @@ shape (scalar / list), built the ways a caller can build a vRecur (keywords, pos
 Oracle: encoded text matches the RECUR grammar with [RSCALE;]FREQ first; decoding yields every part with the reference's
 typed values in the same order; re-encoding the decoded rule gives the same text; for rules dateutil can expand the first
 12 occurrences of rrulestr(encoded) equal those of a dateutil rrule built DIRECTLY from the supplied parts.
+E-hist (decode-histories): decode(text) -> one of 8 in-place mutations of the result -> 0/2 unrelated decodes ->
+decode(text) again -> mutate -> decode: every decode equals the reference (decoding is a function of the text alone),
+directly and through Event.from_ical.
 """
 import enum
 import itertools
@@ -276,7 +279,94 @@ def run_case(case):
             "fails": fails}
 
 
-replay = run_case
+MUTATIONS = ("append", "pop", "reverse", "setitem0", "clear", "extend-slice", "replace-key", "del-key")
+
+
+def mutate(rule, how):
+    """In-place changes a caller may make to a decoded rule; the next decode of the same text must not see them."""
+    for k in list(rule.keys()):
+        v = rule[k]
+        if how == "replace-key":
+            rule[k] = ["X"]
+        elif how == "del-key":
+            if k != "FREQ":
+                del rule[k]
+        elif not isinstance(v, list):
+            continue
+        elif how == "append":
+            v.append(v[0] if v else 1)
+        elif how == "pop":
+            if v:
+                v.pop()
+        elif how == "reverse":
+            v.reverse()
+            v.append(v[0])
+        elif how == "setitem0":
+            if v:
+                v[0] = 7 if isinstance(v[0], int) and not isinstance(v[0], bool) and not isinstance(v[0], vMonth) else "SU"
+        elif how == "clear":
+            v.clear()
+        elif how == "extend-slice":
+            v[0:1] = [9, 9]
+
+
+def decoded_atoms(rule):
+    return [(k, [atom(k, x) for x in (v if isinstance(v, (list, tuple)) else [v])]) for k, v in rule.items()]
+
+
+def run_history(case):
+    """('h', path, freq, parts, mutation, n_between): decode text; mutate the result in place; decode the same text
+    again (after n_between decodes of other texts): the decoded parts must equal the reference both times."""
+    _, path, freq, parts, mutation, between = case
+    fails = []
+    supplied = [("FREQ", freq)] + [(p, PARTS[p][i]) for p, i in parts]
+    sup = dict(supplied)
+    keys = [k for k in ORDER if k in sup] + sorted(k for k in sup if k not in ORDER)
+    text = ";".join(f"{k}=" + ",".join(ref_text(k, x) for x in (as_list(sup[k]) if k != "UNTIL" else [sup[k]])) for k in keys)
+    want = [(k, [ref_typed(k, x) for x in (as_list(sup[k]) if k != "UNTIL" else [sup[k]])]) for k in keys]
+
+    def decode():
+        if path == "codec":
+            return vRecur.from_ical(text)
+        ev = Event.from_ical(f"BEGIN:VEVENT\r\nUID:h\r\nRRULE:{text}\r\nEND:VEVENT\r\n")
+        return ev["RRULE"]
+
+    trans = 0
+    seen = []
+    try:
+        first = decode()
+        trans += 1
+        seen.append(decoded_atoms(first))
+        if seen[0] != want:
+            fails.append(fail("history:first-decode-differs", case, want, seen[0]))
+        mutate(first, mutation)
+        trans += 1
+        for i in range(between):
+            vRecur.from_ical(f"FREQ=DAILY;COUNT={i + 2}")
+            trans += 1
+        second = decode()
+        trans += 1
+        got = decoded_atoms(second)
+        if got != want:
+            fails.append(fail("history:decode-after-mutating-an-earlier-result-differs", case, want, got))
+        t2 = second.to_ical().decode("utf-8")
+        if t2 != text:
+            fails.append(fail("history:re-encode-after-mutation-differs", case, text, t2))
+        # and the other direction: mutating the second result does not reach a third
+        mutate(second, mutation)
+        third = decode()
+        trans += 2
+        got3 = decoded_atoms(third)
+        if got3 != want and got == want:
+            fails.append(fail("history:third-decode-differs", case, want, got3))
+    except Exception as e:  # noqa: BLE001
+        fails.append(fail("history:raises", case, "decoded rules", f"{type(e).__name__}: {e}"))
+    return {"state": ("hist", path, text, mutation, repr(seen)), "trans": trans, "nontrivial": len(supplied) > 1,
+            "outcome": "hist-ok" if not fails else "hist-FAIL", "fails": fails}
+
+
+def replay(case):
+    return run_history(case) if case[0] == "h" else run_case(case)
 
 
 def run(ctx):
@@ -284,7 +374,7 @@ def run(ctx):
     ctx.rule = (f"E-enum: 7 FREQ x every subset of <={j} of 16 optional rule parts x every menu value (2-5 per part: single, "
                 "multiple, negative, ordinal weekdays, leap month, RSCALE/SKIP, X-part, UNTIL as date/floating/UTC) x key "
                 "case {upper, lower} x value shape {scalar, list} x construction {keywords, positional mapping, item "
-                "assignment in reverse order, Event.add}. non-trivial = at least one optional part.")
+                "assignment in reverse order, Event.add}. E-hist: decode / mutate-in-place (8 mutations) / decode histories over every rule with <=1 (thorough 2) optional parts, codec and component path. non-trivial = at least one optional part.")
     ctx.bounds = {"max_optional_parts": j, "parts": {k: len(v) for k, v in PARTS.items()}}
     ctx.assumptions += ["COUNT together with UNTIL, and sub-daily FREQ with date-restricting BY parts, are round-tripped but "
                         "not expanded (dateutil cost / RFC forbids the former)",
@@ -307,3 +397,17 @@ def run(ctx):
                                     yield ("r", how, freq, parts, lower, as_lists)
 
     ctx.explore("rules", gen, run_case)
+
+    def gen_hist():
+        jh = 1 if ctx.quick else 2
+        for n in range(0, jh + 1):
+            for combo in itertools.combinations(names, n):
+                for idx in itertools.product(*[range(len(PARTS[p])) for p in combo]):
+                    parts = tuple(zip(combo, idx))
+                    for freq in (FREQS if n <= 1 else ("WEEKLY",)):
+                        for path in ("codec", "component"):
+                            for m in MUTATIONS:
+                                for between in ((0, 2) if n <= 1 else (0,)):
+                                    yield ("h", path, freq, parts, m, between)
+
+    ctx.explore("decode-histories", gen_hist, run_history)
